@@ -3,12 +3,12 @@ CONSTANTS
   MaxSteps = 4
   Depth = 0
   OpNames = {"AddHeading", "SetStyle", "AddStyle", "ModifyStyle", "RemoveStyle", "GenerateTOC", "AutoGenerateTOC", "UpdateTOC", "TOCEntry", "ApplyTableStyle", "CreateCustomTableStyle", "AddListItem", "AddNote", "RemoveNote", "Save", "Reopen", "OpenForeign", "Markdown", "AddParagraph"}
-  Lv = {1, 4, 9}
+  Lv = {2, 5, 9}
   Maxes = {3}
   StyIds = {"Quote", "C1", "Zz9"}
   AddIds = {"C1"}
-  ModIds = {"Heading1", "C1"}
-  RmIds = {"Heading1", "C1"}
+  ModIds = {"Heading2", "C1"}
+  RmIds = {"Heading2", "C1"}
   Tpls = {"TableGrid"}
   TblIds = {"ab", "TS1"}
   ListTypes = {"bullet", "number"}
